@@ -26,7 +26,7 @@ import tempfile
 from .. import core, par
 
 MANIFEST = dict(
-    text="Proof: Lean theorems inert_rows / process_filter_active (draft and tag-filtered rows have no effect), nested_inline (a nested index is processed exactly as its rows in place), last_wins_campaign / _trigger / _template / _data and flow_rows_spec + flows_last_wins (the definition in effect is the last one not followed by an ignore_row of that name), ignore_spares_templates, output_names_nodup (+ first-position order), sheet_resolves_last, reader_order, split_invariance over a hand model of ContentIndexParser's index processing for all row histories (unbounded, induction over the history); tied to the code by generated multi-workbook histories run through the real ContentIndexParser and converters.create_flows (CSV / JSON / XLSX workbooks) with provenance-encoding sheet contents, and by an independent reference interpretation of the statement.",
+    text="Proof: Lean theorems inert_rows / process_filter_active (draft and tag-filtered rows have no effect), nested_inline (a nested index is processed exactly as its rows in place), last_wins_campaign / _trigger / _template (the definition in effect is what the last row concerning the name left: a definition its content, an ignore_row nothing; templates are touched by template_definition rows only), last_wins_data (the data registry evolves as the C11 chain of the data_sheet rows), flow_rows_spec (surviving create_flow rows = those not named by a later ignore_row), ignore_spares_templates, output_names_nodup (+ first-position order), sheet_resolves_last, reader_order, split_invariance over a hand model of ContentIndexParser's index processing for all row histories (unbounded, induction over the history); tied to the code by generated multi-workbook histories run through the real ContentIndexParser and converters.create_flows (CSV / JSON / XLSX workbooks) with provenance-encoding sheet contents, and by an independent reference interpretation of the statement.",
     ref="§5 C10",
     note="Trusts: Lean kernel (axioms audited each run), the differential harness and Driver JSON codec, CPython dict/list semantics as modelled. Sheet contents are abstracted to their provenance; flow compilation itself is C02's subject. Nesting depth is bounded by fuel in the model (Python: recursion limit); cyclic indexes are not generated. TagMatcher position parameters: ASCII sign+digits only.",
     technique="Lean 4 proof (induction over the row history, fuel-monotone nested recursion, dict-as-association-list lemmas) + differential model/code correspondence on generated index histories",
@@ -723,7 +723,6 @@ def run(ck: core.Check):
         "nesting depth bounded by fuel 40 in the driver (generated nesting ≤ 4); cyclic indexes not generated",
     ]
     ck.partial_gap = [
-        "last_wins_data_full (data-sheet registry along an index history) is stated but not proved; the data-operation level is C11.chain_untouched / registered_persists, and the tie compares the registered data sheets on every case",
         "last_wins_* / flow_rows_spec are stated for flat histories (runFlat); process_filter_active, nested_inline and flat_process reduce any history to a flat one step by step, the composed normal-form theorem is not stated",
     ]
     if not core.DRIVER_BIN.exists():
